@@ -301,6 +301,231 @@ def write_extracted():
     return o.errors
 
 
+
+
+# ---------------------------------------------------------------------------
+# openpgp.py / cli.py (C05, C14)
+# ---------------------------------------------------------------------------
+
+def lbytes(b):
+    return '[' + ', '.join(str(x) for x in b) + ']'
+
+
+def _pgp(o):
+    pg = _src('gemato/openpgp.py')
+    cli = _src('gemato/cli.py')
+
+    def vf():
+        return find_func(pg, 'verify_file', 'SystemGPGEnvironment')
+
+    def prefixes():
+        out = []
+        for n in ast.walk(vf()):
+            if isinstance(n, ast.Call) and isinstance(n.func, ast.Attribute) and n.func.attr == 'startswith' \
+                    and n.args and isinstance(n.args[0], ast.Constant) and isinstance(n.args[0].value, bytes):
+                out.append((n.lineno, n.col_offset, n.args[0].value))
+        out.sort()
+        return llist(lbytes(b) for _l, _c, b in out)
+    o.item('pgpPrefixes', 'List (List Nat)', prefixes, '[]')
+
+    def trust_tokens():
+        for n in ast.walk(vf()):
+            if isinstance(n, ast.Compare) and isinstance(n.ops[0], ast.In) and isinstance(n.comparators[0], ast.Tuple):
+                vals = ast.literal_eval(n.comparators[0])
+                if all(isinstance(v, bytes) for v in vals):
+                    # the tested expression must be spl[1]
+                    assert isinstance(n.left, ast.Subscript) and ast.literal_eval(n.left.slice) == 1
+                    return llist(lbytes(v) for v in vals)
+        raise KeyError('trust tuple')
+    o.item('pgpTrustTokens', 'List (List Nat)', trust_tokens, '[]')
+
+    def valid_idx():
+        idx = []
+        for n in ast.walk(vf()):
+            if isinstance(n, ast.Subscript) and isinstance(n.value, ast.Name) and n.value.id == 'spl' \
+                    and isinstance(n.slice, ast.Constant) and isinstance(n.slice.value, int):
+                idx.append((n.lineno, n.col_offset, n.slice.value))
+        idx.sort()
+        return llist(str(i) for _l, _c, i in idx)
+    o.item('pgpSplIndices', 'List Nat', valid_idx, '[]')
+
+    def min_fields():
+        for n in ast.walk(vf()):
+            if isinstance(n, ast.Assert) and isinstance(n.test, ast.Compare) and isinstance(n.test.ops[0], ast.GtE):
+                return str(ast.literal_eval(n.test.comparators[0]))
+        raise KeyError('assert len(spl) >= N')
+    o.item('pgpMinFields', 'Nat', min_fields, '0')
+
+    def split_args():
+        out = []
+        for n in ast.walk(vf()):
+            if isinstance(n, ast.Call) and isinstance(n.func, ast.Attribute) and n.func.attr == 'split':
+                args = [ast.literal_eval(a) for a in n.args]
+                out.append((n.lineno, n.col_offset, args))
+        out.sort()
+        # (separator bytes, maxsplit or 0 if absent)
+        return llist(f'({lbytes(a[0])}, {a[1] if len(a) > 1 else 0})' for _l, _c, a in out)
+    o.item('pgpSplitCalls', 'List (List Nat × Nat)', split_args, '[]')
+
+    def verify_argv():
+        for n in ast.walk(vf()):
+            if isinstance(n, ast.Call) and isinstance(n.func, ast.Attribute) and n.func.attr == '_spawn_gpg':
+                lst = n.args[0]
+                assert isinstance(lst, ast.List) and isinstance(lst.elts[0], ast.Name) and lst.elts[0].id == 'GNUPG'
+                roe = [kw.value.id for kw in n.keywords if kw.arg == 'raise_on_error']
+                return llist(lstr(ast.literal_eval(e)) for e in lst.elts[1:]), roe
+        raise KeyError('_spawn_gpg in verify_file')
+    o.item('pgpVerifyArgv', 'List (List Nat)', lambda: verify_argv()[0], '[]')
+    o.item('pgpVerifyRaiseOnError', 'List (List Nat)', lambda: llist(lstr(x) for x in verify_argv()[1]), '[]')
+
+    def failure_order():
+        # exception classes raised in verify_file, in source order
+        out = []
+        for n in ast.walk(vf()):
+            if isinstance(n, ast.Raise) and isinstance(n.exc, ast.Call) and isinstance(n.exc.func, ast.Name):
+                out.append((n.lineno, n.exc.func.id))
+        out.sort()
+        return llist(lstr(x) for _l, x in out)
+    o.item('pgpRaises', 'List (List Nat)', failure_order, '[]')
+
+    def spawn_env_steps():
+        f = find_func(pg, '_spawn_gpg', 'SystemGPGEnvironment')
+        steps = []
+        for st in f.body:
+            if isinstance(st, ast.Assign) and isinstance(st.targets[0], ast.Name) and st.targets[0].id == 'env':
+                steps.append('copy:' + ast.unparse(st.value))
+            elif isinstance(st, ast.Assign) and isinstance(st.targets[0], ast.Subscript) and \
+                    isinstance(st.targets[0].value, ast.Name) and st.targets[0].value.id == 'env':
+                steps.append('set:' + ast.literal_eval(st.targets[0].slice) + '=' + ast.literal_eval(st.value))
+            elif isinstance(st, ast.Expr) and isinstance(st.value, ast.Call) and ast.unparse(st.value.func) == 'env.update':
+                steps.append('update:' + ast.unparse(st.value.args[0]))
+        # and Popen gets env=env
+        popen_env = [ast.unparse(kw.value) for n in ast.walk(f) if isinstance(n, ast.Call) and ast.unparse(n.func).endswith('Popen')
+                     for kw in n.keywords if kw.arg == 'env']
+        steps.append('popen-env:' + ','.join(popen_env))
+        return llist(lstr(s) for s in steps)
+    o.item('pgpSpawnEnvSteps', 'List (List Nat)', spawn_env_steps, '[]')
+
+    def isolated_override():
+        f = find_func(pg, '_spawn_gpg', 'IsolatedGPGEnvironment')
+        keys = []
+        for n in ast.walk(f):
+            if isinstance(n, ast.Dict):
+                for k, v in zip(n.keys, n.values):
+                    keys.append((n.lineno, ast.literal_eval(k), ast.unparse(v)))
+            if isinstance(n, ast.Assign) and isinstance(n.targets[0], ast.Subscript) and \
+                    ast.unparse(n.targets[0].value) == 'env_override':
+                keys.append((n.lineno, ast.literal_eval(n.targets[0].slice), ast.unparse(n.value)))
+        keys.sort()
+        passes = any(isinstance(n, ast.Assign) and ast.unparse(n.targets[0]) == "kwargs['env_override']" and
+                     ast.unparse(n.value) == 'env_override' for n in ast.walk(f))
+        sup = any(isinstance(n, ast.Return) and ast.unparse(n.value).startswith('super()._spawn_gpg(*args, **kwargs)')
+                  for n in ast.walk(f))
+        return keys, passes and sup
+    o.item('pgpIsolatedOverride', 'List (List Nat × List Nat)',
+           lambda: llist(f'({lstr(k)}, {lstr(v)})' for _l, k, v in isolated_override()[0]), '[]')
+    o.item('pgpIsolatedPassesOverride', 'Bool', lambda: 'true' if isolated_override()[1] else 'false', 'false')
+
+    def home_property():
+        f = find_func(pg, 'home', 'IsolatedGPGEnvironment')
+        return lstr(ast.unparse(f.body[-1]))
+    o.item('pgpHomeProperty', 'List Nat', home_property, '[]')
+
+    def isolated_direct_spawns():
+        # inside IsolatedGPGEnvironment every gpg start must go through self._spawn_gpg
+        n_direct = 0
+        n_self = 0
+        for c in pg.body:
+            if isinstance(c, ast.ClassDef) and c.name == 'IsolatedGPGEnvironment':
+                for m in c.body:
+                    if not isinstance(m, ast.FunctionDef):
+                        continue
+                    for n in ast.walk(m):
+                        if isinstance(n, ast.Call):
+                            fn = ast.unparse(n.func)
+                            if fn == 'self._spawn_gpg':
+                                n_self += 1
+                            elif 'Popen' in fn or fn.startswith('subprocess.') or fn.startswith('os.system') or \
+                                    (fn == 'super()._spawn_gpg' and m.name != '_spawn_gpg'):
+                                n_direct += 1
+        return n_direct, n_self
+    o.item('pgpIsolatedDirectSpawns', 'Nat', lambda: str(isolated_direct_spawns()[0]), '99')
+    o.item('pgpIsolatedSelfSpawns', 'Nat', lambda: str(isolated_direct_spawns()[1]), '0')
+
+    def conf_direct():
+        f = find_func(pg, '__init__', 'IsolatedGPGEnvironment')
+        strs = [s for s in const_strs(f) if isinstance(s, str)]
+        lines = [ln.strip() for s in strs for ln in s.split('\n')]
+        return 'true' if 'trust-model direct' in lines else 'false'
+    o.item('pgpConfTrustModelDirect', 'Bool', conf_direct, 'false')
+
+    def ownertrust():
+        f = find_func(pg, 'import_key', 'IsolatedGPGEnvironment')
+        for n in ast.walk(f):
+            if isinstance(n, ast.JoinedStr):
+                consts = ''.join(v.value for v in n.values if isinstance(v, ast.Constant))
+                if consts.startswith(':') and consts.endswith(':\n'):
+                    return lstr(consts)
+        raise KeyError('ownertrust format')
+    o.item('pgpOwnertrustSuffix', 'List Nat', ownertrust, '[]')
+
+    def env_choice():
+        # BaseOpenPGPMixin.parse_args: isolated environment iff a key file is given
+        f = find_func(cli, 'parse_args', 'BaseOpenPGPMixin')
+        for n in ast.walk(f):
+            if isinstance(n, ast.If) and ast.unparse(n.test) == 'args.openpgp_key is not None':
+                a = ast.unparse(n.body[0]) if n.body else ''
+                b = ast.unparse(n.orelse[0]) if n.orelse else ''
+                if a.startswith('env_class'):
+                    return llist([lstr(a), lstr(b)])
+        raise KeyError('env_class choice')
+    o.item('cliEnvChoice', 'List (List Nat)', env_choice, '[]')
+
+    def env_aliases():
+        out = []
+        for n in pg.body:
+            if isinstance(n, ast.Assign) and isinstance(n.targets[0], ast.Name) and isinstance(n.value, ast.Name) \
+                    and n.targets[0].id.startswith('OpenPGP'):
+                out.append(f'({lstr(n.targets[0].id)}, {lstr(n.value.id)})')
+        return llist(out)
+    o.item('pgpEnvAliases', 'List (List Nat × List Nat)', env_aliases, '[]')
+
+    def require_signed():
+        f = find_func(cli, '__call__', 'VerifyCommand')
+        for n in ast.walk(f):
+            if isinstance(n, ast.If) and ast.unparse(n.test) == 'self.require_signed_manifest and (not m.openpgp_signed)':
+                rets = [ast.literal_eval(r.value) for r in ast.walk(n) if isinstance(r, ast.Return)]
+                return llist(str(r) for r in rets)
+        raise KeyError('require-signed gate')
+    o.item('cliRequireSignedReturns', 'List Nat', require_signed, '[]')
+
+    def loader_signed_flag():
+        # ManifestRecursiveLoader.__init__: self.openpgp_signed = m.openpgp_signed  (m = the top-level ManifestFile)
+        rl = _src('gemato/recursiveloader.py')
+        f = find_func(rl, '__init__', 'ManifestRecursiveLoader')
+        for n in ast.walk(f):
+            if isinstance(n, ast.Assign) and ast.unparse(n.targets[0]) == 'self.openpgp_signed':
+                return lstr(ast.unparse(n.value))
+        raise KeyError('self.openpgp_signed')
+    o.item('loaderSignedFlag', 'List Nat', loader_signed_flag, '[]')
+
+    def signed_set_after_verify():
+        # in ManifestFile.load: `self.openpgp_signed = True` is the statement right after the verify_file call block
+        man = _src('gemato/manifest.py')
+        f = find_func(man, 'load', 'ManifestFile')
+        trues = [n for n in ast.walk(f) if isinstance(n, ast.Assign) and ast.unparse(n.targets[0]) == 'self.openpgp_signed'
+                 and isinstance(n.value, ast.Constant) and n.value.value is True]
+        assert len(trues) == 1
+        last_if = f.body[-1]
+        assert isinstance(last_if, ast.If)
+        body = [ast.unparse(s).split('\n')[0] for s in last_if.body]
+        return llist([lstr(ast.unparse(last_if.test))] + [lstr(b) for b in body])
+    o.item('loadSignedTail', 'List (List Nat)', signed_set_after_verify, '[]')
+
+
+EXTRA.append(_pgp)
+
+
 if __name__ == '__main__':
     errs = write_extracted()
     print(open(os.path.join(LEAN, 'Gemato', 'Extracted.lean')).read())
